@@ -292,6 +292,21 @@ def match(ctx: Any) -> List[Ob]:
     return obs
 
 
+ROUND_TYPE_EXPR: Dict[int, ast.AST] = {}
+
+
+def round_type_value(ctx: Any, roles: Dict[str, str]) -> ast.AST:
+    """The expression that decides the question type of a round of the lookup: the value of the local that names it, or the
+    argument handed to the query builder when no local does."""
+    f = ctx.prog.func(INFO + '.async_request')
+    if roles['qtype']:
+        asg = [st for st in walk_local_ordered(f.node) if isinstance(st, ast.Assign) and isinstance(st.targets[0], ast.Name) and st.targets[0].id == roles['qtype']]
+        if len(asg) != 1:
+            raise AnalysisError('anchor vanished: question type of the round in async_request')
+        return asg[0].value
+    return ROUND_TYPE_EXPR[id(ctx.prog)]
+
+
 def request_roles(ctx: Any) -> Dict[str, str]:
     """Locals of the lookup loop by role (so that renaming them changes nothing): the clock value, the
     deadline, the next-query time, the delay, the first-request flag and the question type of this round."""
@@ -326,8 +341,10 @@ def request_roles(ctx: Any) -> Dict[str, str]:
                 if roles['now'] in pair and roles.get('last') not in pair and len(pair) == 2:
                     roles['next'] = (pair - {roles['now']}).pop()
     for c in walk_local_ordered(f.node):
-        if isinstance(c, ast.Call) and call_name(c) == '_generate_request_query' and len(c.args) >= 3 and isinstance(c.args[2], ast.Name):
-            roles['qtype'] = c.args[2].id
+        if isinstance(c, ast.Call) and call_name(c) == '_generate_request_query' and len(c.args) >= 3:
+            # the question type of the round: a local, or the expression itself when none names it (ROUND_TYPE_EXPR)
+            roles['qtype'] = c.args[2].id if isinstance(c.args[2], ast.Name) and c.args[2].id not in f.params else ''
+            ROUND_TYPE_EXPR[id(ctx.prog)] = c.args[2]
     for k in ('now', 'delay', 'last', 'qtype', 'first'):
         if k not in roles:
             raise AnalysisError(f'anchor vanished: `{k}` of the lookup loop in {f.where()}')
